@@ -28,7 +28,10 @@ OBSERVERS = ["CloseEpoch", "Genesis", "LenNoUnclesAbs", "LenNoUnclesTau", "LenMa
 REAL_TAGS = {"len": ["len-no-uncles-abs", "len-no-uncles-tau", "len-max-abs", "len-max-tau", "len-min-abs", "len-min-tau",
                      "len-free"],
              "hr": ["hr-no-prev", "hr-low", "hr-high", "hr-inside"],
-             "diff": ["diff-ideal", "diff-no-orphans", "diff-bounded-estimate"]}
+             "diff": ["diff-ideal", "diff-no-orphans", "diff-bounded-estimate"],
+             # raw estimate exactly on / one off the clamp bounds 2*prev and prev/2 (named vacuity cases)
+             "edge": ["hr-estimate-at-upper-bound-1", "hr-estimate-at-upper-bound+0", "hr-estimate-at-upper-bound+1",
+                      "hr-estimate-at-lower-bound-1", "hr-estimate-at-lower-bound+0", "hr-estimate-at-lower-bound+1"]}
 APALACHE = "apalache-mc"
 KINDS = ["next", "reward", "halving", "c2t", "t2c", "d2c", "pow", "field", "succ"]
 SEQ = {"next": "NextCases", "reward": "RewardCases", "halving": "HalvingCases", "c2t": "C2TCases", "t2c": "T2CCases",
@@ -259,6 +262,11 @@ def judge(c, records, tier, tagcount, max_next=4, timeout=900, label=""):
                     t = state["tagNext"][json.dumps(n)]
                     for fam in ("len", "hr", "diff"):
                         tagcount[t[fam]] = tagcount.get(t[fam], 0) + 1
+                    if r["in"]["prev_hr"] != "0":
+                        for side in ("up", "lo"):
+                            if -1 <= t[side] <= 1:
+                                nm = "hr-estimate-at-%s-bound%+d" % ("upper" if side == "up" else "lower", t[side])
+                                tagcount[nm] = tagcount.get(nm, 0) + 1
                     if t["one"]:
                         tagcount["diff-forced-to-1"] = tagcount.get("diff-forced-to-1", 0) + 1
                     nontrivial = t["len"] != "len-free" or t["hr"] != "hr-inside"
